@@ -14,7 +14,7 @@ import os
 ID = "C12"
 LEVEL = "exploration"
 RULE = (
-    "alphabet of 44 requests (22 fixed + a base request with 21 one-argument-at-a-time variants covering every argument of the solver signature; incl. integer / list / numpy-integer / ndarray spellings and Fortran-ordered / transposed / strided source layouts of five requests, footprint/dispersion twins on identical geometry and same-shape different-physics pairs) (shapes 9x7 .. 48x40, odd sizes, truncated / over-requested modes, single and double precision, footprint and "
+    "alphabet of 53 requests (25 fixed incl. 100x100 / 144x100 grids + a base request with 21 one-argument-at-a-time variants and six single-precision twins of them covering every argument of the solver signature; incl. integer / list / numpy-integer / ndarray spellings and Fortran-ordered / transposed / strided source layouts of five requests, footprint/dispersion twins on identical geometry and same-shape different-physics pairs) (shapes 9x7 .. 48x40, odd sizes, truncated / over-requested modes, single and double precision, footprint and "
     "dispersion, default / zero / explicit halo, analytic, multi-level); histories of 60 operations drawn from {solve, set NUM_THREADS in "
     "1..8, reset_fft_manager, get_fft_manager(k), fftw_wisdom.pkl dropped / truncated / garbage / foreign, allocation noise}; 16 "
     "history runners execute concurrently (loaded machine).  non-trivial = a solve preceded by a different request, a thread change or a "
@@ -85,6 +85,11 @@ def requests():
     # float64 / int64 ndarrays where tuples are customary: reused by every repeat of the request in a history (a user loop keeps its arrays)
     R["r20"] = dict(R["r14"], meas_pt=np.array([30.0, 48.0]), domain=np.array([100.0, 112.0]), modes=np.array([6, 8]), levels=np.array([2, 8]))
     R["r21"] = dict(R["r2"], meas_pt=np.array([120.0, 80.0]), domain=np.array([240.0, 160.0]))
+    # larger, non-power-of-two padded grids (threaded FFT libraries split the work differently there)
+    R["r22"] = dict(srf_flx=rng.normal(size=(100, 100)), z=z, profiles=p, domain=(1000.0, 800.0), levels=8, modes=(100, 100), halo=0.0, precision="double")
+    R["r23"] = dict(srf_flx=rng.normal(size=(100, 144)), z=zc, profiles=(2.0 * one, 1.0 * one, 0.8 * one, 0.5 * one, 0.6 * one),
+                    domain=(1440.0, 900.0), levels=[4, 8], modes=(144, 100), halo=0.0, precision="double", analytic=True, srf_bg_conc=0.4)
+    R["r24"] = dict(R["r23"], analytic=False)
     # one-argument-at-a-time family: a small base request and, for every argument of the solver signature, a request that
     # differs from the base in that argument only (state memoised on any proper subset of the arguments mixes one of these pairs)
     nzv = 7
@@ -116,6 +121,9 @@ def requests():
     R["v_analytic"] = dict(B, analytic=True)
     R["v_footprint"] = dict(B, footprint=True)
     R["v_single"] = dict(B, precision="single")
+    # single-precision twins of some variants (single differs from double by storage rounding only, whatever the other options)
+    for nm_ in ("v_analytic", "v_footprint", "v_levels_order", "v_bg", "v_halo_none", "v_modes"):
+        R[nm_ + "_single"] = dict(R[nm_], precision="single")
     return R
 
 
@@ -124,6 +132,10 @@ TWINS = {"r11": "r2", "r12": "r5", "r13": "r0", "r14": "r4", "r10": "r0", "r15":
 VARIANTS = ["v_flxvals", "v_flxshape", "v_z", "v_u", "v_v", "v_kx", "v_ky", "v_kz", "v_domain_scaled", "v_domain_swapped", "v_levels_order",
             "v_levels_other", "v_levels_scalar", "v_modes", "v_halo", "v_halo_none", "v_measpt", "v_bg", "v_analytic", "v_footprint", "v_single"]
 TWINS.update({v: "v0" for v in VARIANTS})
+for _nm in ("v_analytic", "v_footprint", "v_levels_order", "v_bg", "v_halo_none", "v_modes"):
+    PAIRS[_nm + "_single"] = _nm
+    VARIANTS.append(_nm + "_single")
+    TWINS[_nm + "_single"] = _nm
 SAME_VALUES = {"r15": "r4", "r16": "r5", "r17": "r0", "r18": "r8", "r19": "r4", "r20": "r14", "r21": "r2"}  # integer / list / numpy-integer spelling of the same argument values  # same geometry, other mode / other physics
 
 
